@@ -131,11 +131,19 @@ class _CustomGenerator:
 
     def _analyze_line(self, line):
         token = None
-        for match in self._main_tokens.finditer(line):
+        position = 0
+        while True:
+            match = self._main_tokens.search(line, position)
+            if match is None:
+                break
+            position = match.end()
             prefix = match.group(1)
             token = match.group(2)
             # Skip any tokens which are escaped
             if len(prefix) % 2 == 1:
+                # only the character after the backslash: in `\"""` the last
+                # two quotes belong to the next token
+                position = match.start(2) + 1
                 continue
             if token in ["'''", '"""', "'", '"']:
                 if not self.in_string:
